@@ -470,7 +470,7 @@ pub fn property() -> Property {
             "shuffle / bootstrap results are not predicted (they depend on the RNG stream): shuffle must be a permutation of all rows, bootstrap rows/columns must be existing rows/features in the requested shape, one column selection for all rows".into(),
             "sample_chunks: chunk i must be rows [i*c, min(n,(i+1)*c)) in order; both dropping and yielding a trailing partial chunk are accepted (not specified); chunk size 0 is not generated (division by zero, as in ndarray)".into(),
             "target_iter only on 2-D targets (the code documents that branch as 2-D only); into_single_target only with exactly one target column (documented panic otherwise); bootstrap only on non-empty datasets and with >= 1 feature column requested (empty range / untagged rows)".into(),
-            "owned split_with_ratio on column-major data is a documented panic: the interpreter takes view().split_with_ratio there".into(),
+            "owned split_with_ratio on column-major records / 2-D targets is a documented panic: the call is made anyway; a panic is accepted (class owned_split_col_major_documented_panic, the history continues through view().split_with_ratio), a returned answer is judged by the normal split oracle".into(),
             "one_vs_all order of labels is unspecified (HashSet); compared as a set. label_count() of every returned dataset is compared with a recount of the targets it returns".into(),
             "a panic of ndarray 0.15's own debug assertion (`can_index_slice` inside to_owned/map/select, active only because the harness builds with debug assertions) on a dataset with ZERO samples that was sliced out of a larger array (empty half of a split, empty chunk) is not attributed to linfa: the history ends there, counted in class ndarray_debug_assertion_on_empty_sliced_array; any other panic is a failure".into(),
             "view implementation of split_with_ratio is always exercised as view().split_with_ratio(r) (view judged as its own step): linfa's signature (&'a self on DatasetBase<ArrayView2<'a,_>,_>) admits the call only in the frame that created the view".into(),
